@@ -7,7 +7,8 @@ TECHNIQUE = 'deductive verification: ghost outstanding-count invariant + frame c
 LEVEL_TEXT = ('Ghost field g_out (requests dispatched to a node and not released) is tied to node.load by a proved invariant '
               '(load = Idle + g_out, or g_out while marked down); dispatch proves g_out += 1 on the chosen node only, the release closure proves g_out -= 1 '
               'exactly on its first invocation and nothing on later ones, the clamp branch is proved unreachable, every other function proves g_out unchanged; '
-              '_RemoveSink/__Put prove that a removed node is closed at once iff idle or down, otherwise exactly when its last request is released.')
+              '_RemoveSink/__Put prove that a removed node is closed at once iff idle or down, otherwise exactly when its last request is released.'
+              ' On the reply path (HeapBalancerSink.AsyncProcessResponse) the release closure is proved to have been invoked before the reply is forwarded up the stack, so the release does not depend on sinks further up.')
 LEVEL_NOTE = ('Trusted and scoped as for C03 (valid for any hooks meeting the weak hook contract; the heap balancer\'s own hooks are verified against it here, the aperture\'s overrides by the C06 check). The link "a not-yet-invoked release closure accounts for one unit of g_out" is a counting argument over the history '
               '(each dispatch creates one closure and one unit; g_out changes nowhere else, which the frame conditions check) and is stated as the closure\'s precondition. '
               'That every completion path invokes the closure is C01 (stack drain), not re-proved here.')
